@@ -138,6 +138,7 @@ func (n *Node) call(kind, args string, f func() string) (out string, panicked bo
 		}
 	}
 	fmt.Fprintf(n.cl.tr, "O %d %s\n", n.cl.seq, sb.String())
+	n.cl.trBytes += len(args) + sb.Len() + 32
 	if panicked {
 		n.cl.onPanic(n, kind, out)
 	}
